@@ -587,6 +587,10 @@ func checkDptGlobalsReadOnly(c *Check, p *Program, registered map[*types.Named]s
 			fmt.Sprintf("%d use(s): loads only, written in package init only", nUses), "package-level variable of dpt is "+bad)
 	}
 	c.Floor("C19.read-only-state", "package-level variables of dpt", len(globals), 3)
+	// anti-vacuity: the scan sees the uses of the registry (Produce and ListSupportedTypes read it)
+	if rg := registryGlobal(p); rg != nil {
+		c.Floor("C19.read-only-state", "uses of the registry variable seen by the scan", len(usesOf(rg)), 2)
+	}
 	// methods of registered types exist and are analysed through the global scan
 	// above (a write anywhere in the package is caught irrespective of caller).
 	n := 0
